@@ -253,6 +253,9 @@ def expected_set(ref, v, updates):
 def via_store(updater, path, n_sib, v, updates, unit_decl, mode):
     if mode == 'mixed':
         return via_store_mixed(updater, path, n_sib, v, updates)
+    if mode in ('mixed-last', 'mixed-last-multi'):
+        return via_store_mixed_last(updater, path, n_sib, v, updates,
+                                    mode == 'mixed-last-multi')
     leaf = leaf_schema(updater, v, unit_decl)
     store = Store(nest(path, leaf, n_sib))
     store.apply_defaults()
@@ -283,6 +286,25 @@ def via_store_mixed(updater, path, n_sib, v, updates):
     kept = copy.deepcopy(given)
     for g in given:
         store.apply_update(wrap_update(path, g))
+    return before, store.get_value(), given, kept, True
+
+
+def via_store_mixed_last(updater, path, n_sib, v, updates, multi):
+    """A 'set' variable; the LAST update of the batch names the updater
+    accumulate, the earlier ones are plain (one by one, or as ONE
+    _multi_update list)."""
+    leaf = leaf_schema(updater, v, None)
+    store = Store(nest(path, leaf, n_sib))
+    store.apply_defaults()
+    before = probes.pure(store.get_value())
+    given = [copy.deepcopy(u) for u in updates[:-1]] + [
+        {'_value': copy.deepcopy(updates[-1]), '_updater': 'accumulate'}]
+    kept = copy.deepcopy(given)
+    if multi:
+        store.apply_update(wrap_update(path, {'_multi_update': given}))
+    else:
+        for g in given:
+            store.apply_update(wrap_update(path, g))
     return before, store.get_value(), given, kept, True
 
 
@@ -371,6 +393,11 @@ def check_case(job, acc):
         for u in updates[1:]:
             cur = ref(cur, copy.deepcopy(u))
         want = [cur]
+    if mode in ('mixed-last', 'mixed-last-multi'):
+        # set, set, ..., then accumulate: the last plain value plus the
+        # named update
+        want = [REF['accumulate'](copy.deepcopy(updates[-2]),
+                                  copy.deepcopy(updates[-1]))]
     if unit_decl is not None:
         want = [w.to(unit_decl[1]) for w in want]
     try:
@@ -588,6 +615,10 @@ def jobs(ctx):
                                             'nonnegative_accumulate',
                                             'vmc_user'):
                             modes.append('mixed')
+                        if route == 'store' and len(batch) > 1 and \
+                                updater == 'set' and isinstance(
+                                    vmk(), (int, float)):
+                            modes += ['mixed-last', 'mixed-last-multi']
                         if route == 'engine' and updater not in (
                                 'merge', 'dict_value', 'override') and \
                                 not isinstance(vmk(), dict):
@@ -683,3 +714,6 @@ RULE += (
 
 RULE += (
     ' The merge domain includes an update that sets a NESTED key holding a dictionary to None.')
+
+RULE += (
+    ' Modes mixed-last / mixed-last-multi: a set variable whose batch ends with an update that names the updater accumulate (one by one, and as ONE _multi_update list): the earlier updates still count.')
